@@ -151,7 +151,7 @@ func c02AddAtoms(t *c02Ty, pool *[]*c02Ty, seen map[string]bool) {
 func (g *c02G) litOf(t *c02Ty) *c02Exp {
 	switch t.K {
 	case "int":
-		return &c02Exp{K: "int", Lit: fmt.Sprint(g.rng.Intn(90))}
+		return &c02Exp{K: "int", Lit: fmt.Sprint(1 + g.rng.Intn(89))} // never 0: Go rejects a constant division by zero
 	case "string":
 		return &c02Exp{K: "str", Lit: "\"" + Choose(g.rng, []string{"a", "bc", "x y", "q", ""}) + "\""}
 	case "bool":
@@ -839,6 +839,11 @@ func c02ShapeFunc(rng *Rng, name string, thoroughSize bool) *c02Func {
 			vi = len(s.vals) - 1 // chains: continue from the newest value
 		}
 		v := s.vals[vi]
+		if v.ty.hasGenericNamed() {
+			// values of generic record/union type are results only: fc loses their type arguments when
+			// they flow through another generic (hazard stream, reported as a finding)
+			continue
+		}
 		ref := &c02Exp{K: "var", Name: v.name}
 		bare := v.ty.K == "var"
 		switch r := rng.Intn(100); {
